@@ -170,6 +170,9 @@ func (vm *Manager) UpdateAll(cfgs []v1.VisitorConfigurer) {
 	for _, cfg := range cfgs {
 		name := cfg.GetBaseConfig().Name
 		if _, ok := vm.cfgs[name]; !ok {
+			// If a name is configured more than once, store and start the entry the loop above
+			// compares with, so that reloading the same configuration changes nothing.
+			cfg = cfgsMap[name]
 			vm.cfgs[name] = cfg
 			addNames = append(addNames, name)
 			_ = vm.startVisitor(cfg)
